@@ -342,7 +342,7 @@ def main(rec):
                 "combination once, 6 names per library), libraries also vary namespace and C_prefix; distinct_nontrivial = "
                 "distinct callable signatures whose C and Fortran names were compared with the model")
     rec.assumptions = ["naming model vf/libgen/libs.py:assign_names written from docs/reference.rst (C_name_template, F_name_impl_template, "
-                       "F_name_generic_template, default suffix rules)", "C++ names are lower case so that un_camel is the identity (the property's domain)"]
+                       "F_name_generic_template, default suffix rules)", "un_camel (CamelCase -> underscore_name) as implemented in vf/libgen/libs.py; CamelCase names are used in the ncamel libraries only"]
     combos = []
     for nover, ndef, explicit, tmpl, generic, incls in itertools.product([1, 2, 3], [0, 1, 2], [None, "function_suffix", "default_arg_suffix", "default_arg_suffix_short", "default_arg_suffix_long"],
                                                                         [False, True], [None, "nosfx", "sfx"], [False, True]):
@@ -389,6 +389,13 @@ def main(rec):
             groups = []
     if groups:
         cases.append({"lib": build_lib("nstr%d" % sk, groups, "c++", ("c", "fortran"))})
+    # CamelCase C++ names (underscore_name = un_camel of the C++ name): acronyms, digits, capitals next to the end
+    camel = ["getIDs", "getIds", "numCPUs", "toRGBa", "parseHTMLDoc", "setName", "Vec3Ab", "incrementBy2", "XMLHttpRequest2", "aB"]
+    for ci in range(0, len(camel), 5):
+        groups = []
+        for gi, nm in enumerate(camel[ci:ci + 5]):
+            groups.append(make_group(nm, 1 + (gi % 2), gi % 3 if gi % 2 == 0 else 0, None, False, None, cls=("K0" if gi == 3 else None)))
+        cases.append({"lib": build_lib("ncamel%d" % (ci // 5), groups, "c++", ("c", "fortran", "python") if ci else ("c", "fortran"))})
     # cpp_if on some members of an overload set (first / last / middle member guarded)
     cpp_cases = []
     for ci, (nover, which) in enumerate([(2, [0]), (2, [1]), (3, [0]), (3, [1]), (3, [0, 2]), (3, [2])]):
